@@ -166,6 +166,8 @@ def run_refine(ctx, progs, consts, module="Refine", cfg=None, opts=None, batch_s
             raise Machinery("record %s has no SUMMARY line (TLC never reached the postcondition)" % it["id"])
         inits, checked, undef, corner = int(s[0]), int(s[1]), int(s[2]), int(s[3])
         amb = int(s[7]) if len(s) > 7 else 0
+        unsettled = int(s[8]) if len(s) > 8 else 0
+        ctx.add("unsettled_states", unsettled)
         hist = it.get("mode") == "hist"
         ctx.add("raced_states_not_judged", amb)
         unsup = s[5].strip() if len(s) > 5 else "{}"
@@ -181,7 +183,7 @@ def run_refine(ctx, progs, consts, module="Refine", cfg=None, opts=None, batch_s
             continue
         if inits < 1:
             raise Machinery("record %s: no initial state was generated" % it["id"])
-        if not hist and checked + undef + corner != inits and not failed:
+        if not hist and checked + undef + corner + unsettled != inits and not failed:
             raise Machinery("record %s: %d valuations but %d settled states accounted for" % (it["id"], inits, checked + undef + corner))
         if checked == 0:
             vacuous += 1
@@ -591,31 +593,38 @@ def c14(ctx):
 
 
 def layout_corpus(ctx, quick_n):
-    """Programs for the layout-sensitive properties: the GenLayout families (far apart entities, fan-out, long chains) plus a
-    slice of every other family."""
+    """Programs for the layout-sensitive properties: the GenLayout families (far apart entities, fan-out, long chains, columns,
+    combinators pulled away from their neighbours) plus a FIXED pool from every other family (closed corpus: the pool does not
+    depend on the seed; the quick tier takes a seed-rotated part of it, thorough all of it)."""
     out = []
+    quick = ctx.tier == "quick"
 
-    def take(mod, prefix, n, filt=None, **extra):
+    def take(mod, prefix, pool_n, filt=None, **extra):
         ps = with_ids(gen.generate(mod), prefix)
         if filt:
             ps = [p for p in ps if filt(p)]
-        for p in pick(ps, n, ctx.seed):
+        pool = pick_strat(ps, pool_n, 0, min_per=3) if pool_n < len(ps) else ps
+        chosen = pick(pool, max(2, (quick_n * len(pool)) // 16), ctx.seed) if (quick and mod != "GenLayout") else pool
+        for p in chosen:
             q = dict(p)
             q.update(extra)
             out.append(q)
-    take("GenLayout", "gl", 100)
-    k = quick_n
-    take("GenScalar", "sc", 3 * k, lambda p: p["grp"] in ("form", "share", "pair"))
-    take("GenBundle", "bu", k)
-    take("GenMem", "me", k, lambda p: p["grp"] in ("cell", "latch1", "latchx"), hist=True)
-    take("GenEntity", "en", 2 * k, lambda p: p["grp"].startswith("c06:") or p["grp"] in ("c09:loop", "c09:func", "c09:mixed"))
-    take("GenFL", "fl", k, lambda p: p.get("mode") != "hist")
+    take("GenLayout", "gl", 1000)
+    take("GenScalar", "sc", 40, lambda p: p["grp"] in ("form", "share", "pair", "logic", "twocons"))
+    take("GenBundle", "bu", 14)
+    take("GenMem", "me", 14, lambda p: p["grp"] in ("cell", "latch1", "latchx", "samee"), hist=True)
+    take("GenEntity", "en", 30, lambda p: p["grp"].startswith("c06:") or p["grp"] in ("c09:loop", "c09:func", "c09:mixed", "c09:shadow"))
+    take("GenFL", "fl", 14, lambda p: p.get("mode") != "hist")
+    if quick:   # the GenLayout families are small: the quick tier keeps a third of them
+        gl = [p for p in out if p["id"].startswith("gl-")]
+        keep = {p["id"] for p in pick_strat(gl, max(10, len(gl) // 3), ctx.seed, min_per=8)}   # groups of <= 8 programs are kept whole
+        out = [p for p in out if not p["id"].startswith("gl-") or p["id"] in keep]
     return out
 
 
 def layout_item(p, r, **extra):
     items = sorted({c["item"] for c in p.get("cins", [])}) if p.get("cins") else []
-    it = {"id": p["id"], "stmts": p["stmts"], "u": 1, "bps": [prep_bp(r["bp"], extra=items)]}
+    it = {"id": p["id"], "stmts": p["stmts"], "src": p["src"], "u": 1, "bps": [prep_bp(r["bp"], extra=items)]}
     if p.get("dom"):
         it["dom"] = p["dom"]
     if p.get("cins"):
@@ -966,9 +975,11 @@ def c07(ctx):
 
     def one(k):
         c, p = invs[k]
-        src_file = os.path.join(clidir, "p%d.facto" % k)
-        with open(src_file, "w") as fh:
-            fh.write(p["src"])
+        src_file = os.path.join(clidir, "%s.facto" % p["id"])     # one file name per program: labels carry the file name
+        if not os.path.exists(src_file):
+            with open(src_file + ".tmp%d" % k, "w") as fh:
+                fh.write(p["src"])
+            os.replace(src_file + ".tmp%d" % k, src_file)
         out_file = os.path.join(clidir, "p%d.out" % k)
         trace = os.path.join(clidir, "p%d.trace" % k)
         args = [src_file] if c["input"] == "file" else ["-i", p["src"]]
@@ -1012,7 +1023,7 @@ def c07(ctx):
             raise Machinery("no plan event recorded for %s (hook H1 missing?)" % rid)
         items = sorted({x["item"] for x in p.get("cins", [])}) if p.get("cins") else []
         bps.append(prep_bp(dec, extra=items))
-        recs.append({"id": rid, "u": len(bps), "plan": prep_plan(plan)})
+        recs.append({"id": rid, "u": len(bps), "plan": prep_plan(plan), "stmts": p["stmts"]})
         q = dict(p)
         q["id"] = rid
         q["job"] = {"conf": c}
@@ -1026,7 +1037,8 @@ def c07(ctx):
     # the other form of the same program through the API path must decode to the same blueprint: compare string vs json pairs
     byprog = {}
     for r in recs:
-        byprog.setdefault(r["id"].split("#")[0] + "|" + r["id"].rsplit("-", 1)[1], []).append(r)
+        parts = r["id"].split("#")[1].split("-")       # entry, input, form, out, opt
+        byprog.setdefault(r["id"].split("#")[0] + "|" + parts[1] + "|" + parts[4], []).append(r)
     for lst in byprog.values():
         forms = {("-json-" in r["id"]): r for r in lst}
         if len(forms) == 2:
@@ -1051,6 +1063,8 @@ def c07(ctx):
     ctx.cov["disagreements_checked"] = ctx.cov["entities_compared"] + ctx.cov["wires_compared"]
     srcs = {r["id"]: p for r, p in zip(recs, [x for x in rprogs])}
     allsrc = {rid: pp["src"] for rid, pp in ((q["id"], q) for q in rprogs)}
+    for f in tagged_tuples(out, "KNOWN"):
+        ctx.known[unq(f[3])] = ctx.known.get(unq(f[3]), 0) + 1
     for f in tagged_tuples(out, "FAIL"):
         rid = unq(f[1])
         ctx.violation(rid, unq(f[2]), ", ".join(f[3:]), {"src": allsrc.get(rid), "item": {}, "module": "Export"})
